@@ -430,53 +430,58 @@ class tridonic(hid):
             # still outstanding: clearly a bug!
             assert seq not in self._outstanding
             self._outstanding[seq] = (event, messages)
-            data = self._cmd(
-                self._CMD_SEND, seq,
-                ctrl=self._SEND_CTRL_SENDTWICE if command.sendtwice else 0,
-                mode=self._command_mode(frame),
-                frame=frame.pack_len(4))
             try:
-                os.write(self._f, data)
-            except OSError:
-                # The device has failed.  Disconnect, schedule a
-                # reconnection, and report this command as failed.
-                self._log.debug("fail on transmit, disconnecting")
-                self.disconnect(reconnect=True)
-                raise CommunicationError
-
-            outstanding_transmissions = 2 if command.sendtwice else 1
-            response = None
-            while outstanding_transmissions or response is None:
-                self._log.debug(f"waiting for {outstanding_transmissions=} "
-                                "{response=}")
-                if len(messages) == 0:
-                    await event.wait()
-                    event.clear()
-                message = messages.pop(0)
-                if message == "fail":
-                    # The device has gone away, possibly in the middle
-                    # of processing our command.
-                    self._log.debug("processing queued fail on receive")
+                data = self._cmd(
+                    self._CMD_SEND, seq,
+                    ctrl=self._SEND_CTRL_SENDTWICE if command.sendtwice else 0,
+                    mode=self._command_mode(frame),
+                    frame=frame.pack_len(4))
+                try:
+                    os.write(self._f, data)
+                except OSError:
+                    # The device has failed.  Disconnect, schedule a
+                    # reconnection, and report this command as failed.
+                    self._log.debug("fail on transmit, disconnecting")
+                    self.disconnect(reconnect=True)
                     raise CommunicationError
 
-                # The message mode is guaranteed to be _MODE_RESPONSE
-                mode, rtype, frame, interval, seq = self._resptmpl.unpack(
-                    message)
-                self._log.debug(f"message mode={mode:02x} rtype={rtype:02x} frame={frame} interval={interval:04x} seq={seq:02x}")
-                if rtype in (self._RESPONSE_FRAME_DALI16,
-                             self._RESPONSE_FRAME_DALI24):
-                    # XXX check the frame contents?
-                    outstanding_transmissions -= 1
-                elif rtype == self._RESPONSE_FRAME_DALI8:
-                    response = dali.frame.BackwardFrame(frame)
-                elif rtype == self._RESPONSE_INFO \
-                     and frame[3] == self._BUS_STATUS_FRAMING_ERROR:
-                    response = dali.frame.BackwardFrameError(255)
-                elif rtype == self._RESPONSE_NO_FRAME:
-                    response = "no"
-                else:
-                    self._log.debug(f"didn't understand {rtype=}")
-            del self._outstanding[seq], event, messages
+                outstanding_transmissions = 2 if command.sendtwice else 1
+                response = None
+                while outstanding_transmissions or response is None:
+                    self._log.debug(f"waiting for {outstanding_transmissions=} "
+                                    "{response=}")
+                    if len(messages) == 0:
+                        await event.wait()
+                        event.clear()
+                    message = messages.pop(0)
+                    if message == "fail":
+                        # The device has gone away, possibly in the middle
+                        # of processing our command.
+                        self._log.debug("processing queued fail on receive")
+                        raise CommunicationError
+
+                    # The message mode is guaranteed to be _MODE_RESPONSE
+                    mode, rtype, frame, interval, seq = self._resptmpl.unpack(
+                        message)
+                    self._log.debug(f"message mode={mode:02x} rtype={rtype:02x} frame={frame} interval={interval:04x} seq={seq:02x}")
+                    if rtype in (self._RESPONSE_FRAME_DALI16,
+                                 self._RESPONSE_FRAME_DALI24):
+                        # XXX check the frame contents?
+                        outstanding_transmissions -= 1
+                    elif rtype == self._RESPONSE_FRAME_DALI8:
+                        response = dali.frame.BackwardFrame(frame)
+                    elif rtype == self._RESPONSE_INFO \
+                         and frame[3] == self._BUS_STATUS_FRAMING_ERROR:
+                        response = dali.frame.BackwardFrameError(255)
+                    elif rtype == self._RESPONSE_NO_FRAME:
+                        response = "no"
+                    else:
+                        self._log.debug(f"didn't understand {rtype=}")
+            finally:
+                # Also runs if we are cancelled while waiting: the slot
+                # must not stay taken when the sequence numbers wrap
+                self._outstanding.pop(seq, None)
+            del event, messages
             if command.response:
                 # Construct response and return it
                 if response == "no":
